@@ -98,7 +98,8 @@ def check_thermo(case):
 def upper_strategy(draw):
     mdl = draw(st.sampled_from(["NRTL", "NRTL", "UNIQUAC"]))
     if mdl == "NRTL":
-        c = draw(procs.process_case(kinds=("ideal-iso", "ideal-noniso"), models=("NRTL",), removal=(1e-5, 0.1), max_steps=5))
+        c = draw(procs.process_case(kinds=("ideal-iso", "ideal-noniso"), models=("NRTL",),
+                                    removal=(1e-5, 0.1) if draw(st.integers(0, 4)) else (0.1, 3.0), max_steps=5))
     else:
         c = draw(procs.process_case(kinds=("ideal-iso", "ideal-noniso"), models=("UNIQUAC",), removal=(1e-5, 0.1), max_steps=5,
                                     builtin_share=0.0, uq_family="symmetric"))
@@ -115,11 +116,19 @@ def check_upper(case):
     s = procs.setup(case)
     mix, mem = s.mix, s.mem
     twin = swap_mixture(mix)
-    mem2 = build.membrane({"name": "M", "e1": case["membrane"]["e2"], "e2": case["membrane"]["e1"]}, twin)
+    # experiments are looked up by component name, so the SAME Membrane object serves the relabelled mixture; half of the cases use it
+    # (state kept on the membrane between the two runs must not matter), the other half a membrane with the experiment lists exchanged
+    if int(case["removal"] * 1e7) % 2 == 0:
+        mem2 = mem
+        classes_extra = ["same-membrane-object"]
+    else:
+        mem2 = build.membrane({"name": "M", "e1": case["membrane"]["e2"], "e2": case["membrane"]["e1"],
+                               "interleave": case["membrane"].get("interleave")}, twin)
+        classes_extra = ["exchanged-membrane"]
     pv, pv2 = s.pv, build.Pervaporation(membrane=mem2, mixture=twin)
     x, t, mdl, perm, prec = case["x"], case["T"], case["model"], case["perm"], case["precision"]
     tol = tol_for(x) * 10
-    classes = procs.classes_of(case)
+    classes = procs.classes_of(case) + classes_extra
     comp, comp2 = build.composition(x, case["basis"]), build.composition(1.0 - x, case["basis"])
     try:
         # membrane
@@ -146,6 +155,7 @@ def check_upper(case):
         if is_raised(j):
             raise Discard("solver raised %s" % j.type)
         flip = e1 != e2
+        amp = 1.0
         if not flip:
             # conditioning: the minor permeate fraction 1-y carries a relative rounding error eps/min(y,1-y), which enters the
             # permeate-side pressure (bounded by the vacuum flux scale P_i x pf_i)
@@ -153,8 +163,10 @@ def check_upper(case):
             yy = float(j[0]) / (float(j[0]) + float(j[1])) if float(j[0]) + float(j[1]) != 0 else 0.5
             edge = max(min(yy, 1.0 - yy), 1e-300)
             tot = abs(float(j[0])) + abs(float(j[1]))  # with back pressure the permeate-side term (~ total flux scale) can dominate
+            # near equilibrium the rounding of one iterate is amplified by the cancellation factor before it reaches the next flux
+            amp = 1.0 if is_raised(jv) else max(1.0, max(abs(float(jv[i])) / max(abs(float(j[i])), 1e-300) for i in (0, 1)))
             for i in (0, 1):
-                slack = 8e-16 * max(tot, 0.0 if is_raised(jv) else abs(float(jv[i]))) / edge
+                slack = 8e-16 * amp * max(tot, 0.0 if is_raised(jv) else abs(float(jv[i]))) / edge
                 require(abs(float(j[i]) - float(j2[1 - i])) <= tol * max(abs(float(j[i])), abs(float(j2[1 - i]))) + slack,
                         "solver fluxes %r, relabelled %r (expected exchanged)", (float(j[0]), float(j[1])), (float(j2[0]), float(j2[1])))
             # one-point curve and its metrics
@@ -162,7 +174,7 @@ def check_upper(case):
             dc2 = call(pv2.ideal_diffusion_curve, t, [comp2], perm["T"], perm["p"], prec, mdl)
             if not is_raised(dc) and not is_raised(dc2):
                 for i in (0, 1):
-                    slack = 8e-16 * max(tot, 0.0 if is_raised(jv) else abs(float(jv[i]))) / edge
+                    slack = 8e-16 * amp * max(tot, 0.0 if is_raised(jv) else abs(float(jv[i]))) / edge
                     a, b = float(dc.partial_fluxes[0][i]), float(dc2.partial_fluxes[0][1 - i])
                     require(abs(a - b) <= tol * max(abs(a), abs(b)) + slack, "curve fluxes %r, relabelled %r (expected exchanged)",
                             dc.partial_fluxes[0], dc2.partial_fluxes[0])
@@ -176,7 +188,9 @@ def check_upper(case):
                     # the inversion divides by feed - permeate pressure: rounding in the iterate is amplified by the cancellation
                     # factor (vacuum flux / flux) once in the solver and once in the inversion (thorough-tier false alarm near equilibrium)
                     cond = 1.0 if is_raised(jv) else max(abs(float(jv[i])) / max(abs(float(j[i])), 1e-300) for i in (0, 1))
-                    if math.isfinite(se) and se > 0 and math.isfinite(se2):
+                    # beyond cond ~ 300 (driving force < 0.3% of the pressures) three successive amplifications (iterate -> flux ->
+                    # inversion) turn last-bit differences into 1e-5 and the comparison is undecidable (second false alarm there)
+                    if math.isfinite(se) and se > 0 and math.isfinite(se2) and cond <= 300.0:
                         require(relerr(se * se2, 1.0) <= 1000 * tol + 1e-13 * cond * cond / edge,
                                 "curve selectivity %r is not the inverse of the relabelled one %r", se, se2)
         # processes
@@ -186,7 +200,23 @@ def check_upper(case):
         s2 = procs.Setup()
         s2.pv, s2.curves, s2.initial = pv2, None, None
         m2, e2 = _traced(pv2, lambda: procs.run(case, s2, dt, cond_spec=dict(cond, x=1.0 - cond["x"])))
-        if is_raised(m) or is_raised(m2) or e1 != e2:
+        def borderline(model):
+            """The look-ahead state after the last reported step sits on the validity boundary to rounding (legitimate flip)."""
+            k = len(model.feed_mass) - 1
+            mk, wk = float(model.feed_mass[k]), model.feed_compositions[k].p
+            d1 = float(model.partial_fluxes[k][0]) * cond["area"] * dt
+            d2 = float(model.partial_fluxes[k][1]) * cond["area"] * dt
+            rem = (mk * wk - d1, mk * (1 - wk) - d2, mk - d1 - d2)
+            return any(abs(r) <= 1e-9 * float(model.feed_mass[0]) for r in rem)
+
+        returned = m2 if is_raised(m) else m
+        if is_raised(m) != is_raised(m2) and len(e1) == len(e2) and e1[:max(len(e1) - 1, 0)] == e2[:max(len(e2) - 1, 0)] \
+                and min(x, 1 - x) > 1e-3 and not borderline(returned):
+            raise Violation("the %s process %s but the relabelled one %s (same number of flux calculations, %d)"
+                            % (case["kind"], "raised %r" % m if is_raised(m) else "returned", "raised %r" % m2 if is_raised(m2) else "returned", len(e1)))
+        if not flip and amp > 300.0:
+            classes.append("ill-conditioned")  # driving force < 0.3% of the pressures: rounding is amplified beyond any fixed tolerance
+        elif is_raised(m) or is_raised(m2) or e1 != e2:
             classes.append("process-not-compared")
         else:
             n = case["steps"]
